@@ -591,7 +591,8 @@ def run(tier, seed, replay=None):
     else:
         cases = vf.load_corpus(PROP)
         cases += [happy_path("mem", 2), happy_path("fs", 2), happy_path("mem", 3, "afs"), happy_path("fs", 3, "afs")]
-        n = 44 if tier == "quick" else 900
+        n = 28 if tier == "quick" else 600
+        n = int(os.environ.get("VERIF_C17_CASES", n))   # experiments with planted bugs only
         for i in range(n):
             cases.append(gen_case(r.rng, tier, fault_rate=0.25 if i % 4 == 1 else 0.1))
     try:
